@@ -3,6 +3,7 @@ package props
 import (
 	"context"
 	"encoding/binary"
+	"encoding/json"
 	"errors"
 	"fmt"
 	"sort"
@@ -28,6 +29,7 @@ import (
 	"github.com/attestantio/vouch/verifmc/mtime"
 	"github.com/rs/zerolog"
 	e2wtypes "github.com/wealdtech/go-eth2-wallet-types/v2"
+	httpconfidant "github.com/wealdtech/go-majordomo/confidants/http"
 )
 
 // C11: relays and beacon nodes are told exactly what the configuration says.
@@ -92,8 +94,27 @@ func c11Docs() []c11DocT {
 			}
 			return &c11Exp{fee: feeA, relays: both(feeA, gasDef, gasDef)}
 		}},
+		// D5: what a dynamic configuration source answers: entries of their own only for the validators it was asked
+		// about (here: validator 3, the one that becomes active with the next epoch, if its key was among those sent)
+		{name: "D5", json: func(p [4]phase0.BLSPubKey) string {
+			own := ""
+			for _, k := range c11Posted {
+				if k == p[3].String() {
+					own = `,"proposers":[{"proposer":"` + p[3].String() + `","fee_recipient":"` + feeC + `"}]`
+				}
+			}
+			return `{"version":2,"fee_recipient":"` + feeA + `","relays":{"` + c11R1 + `":{},"` + c11R2 + `":{}}` + own + `}`
+		}, exp: func(v int) *c11Exp {
+			if v == 3 {
+				return &c11Exp{fee: feeC, relays: both(feeC, gasDef, gasDef)}
+			}
+			return &c11Exp{fee: feeA, relays: both(feeA, gasDef, gasDef)}
+		}},
 	}
 }
+
+// c11Posted: the public keys vouch sent with its last request to the (dynamic) configuration source.
+var c11Posted []string
 
 type c11Reg struct {
 	round     int
@@ -158,6 +179,14 @@ func (n *c11Node) SubmitValidatorRegistrations(ctx context.Context, regs []*cons
 	mc.Yield()
 	if n.env.failing == "node1" && n.name == "node1" {
 		return errors.New("scripted node failure")
+	}
+	if n.name == "node2" {
+		// the second node takes a second over the request and, like an HTTP client, gives up when the request's context
+		// is cancelled
+		t := mtime.After(time.Second)
+		if sel := mc.Select(false, mc.RecvCase(ctx.Done()), mc.RecvCase(t)); sel.Index == 0 {
+			return ctx.Err()
+		}
 	}
 	var back []*relaytypes.SignedValidatorRegistration
 	for _, x := range regs {
@@ -236,7 +265,12 @@ func (e *c11Env) SignValidatorRegistration(_ context.Context, a e2wtypes.Account
 
 type c11Majordomo struct{ e *c11Env }
 
-func (m *c11Majordomo) Fetch(_ context.Context, _ string) ([]byte, error) {
+func (m *c11Majordomo) Fetch(ctx context.Context, _ string) ([]byte, error) {
+	// the source is a dynamic one (an http URL): vouch posts the public keys it wants settings for
+	c11Posted = nil
+	if body, ok := ctx.Value(&httpconfidant.Body{}).([]byte); ok {
+		_ = json.Unmarshal(body, &c11Posted)
+	}
 	var pk [4]phase0.BLSPubKey
 	for i := 1; i <= 3; i++ {
 		pk[i] = m.e.accts[i].pubkey()
@@ -293,7 +327,7 @@ func c11Units(tier string) []hx.Unit {
 				svc, err := standardblockrelay.New(ctx,
 					standardblockrelay.WithLogLevel(zerolog.Disabled), standardblockrelay.WithMonitor(&nullmetrics.Service{}), standardblockrelay.WithMajordomo(&c11Majordomo{e}),
 					standardblockrelay.WithScheduler(&nopScheduler{}), standardblockrelay.WithListenAddress("127.0.0.1:18550"), standardblockrelay.WithChainTime(ct),
-					standardblockrelay.WithConfigURL("file:///config.json"), standardblockrelay.WithFallbackFeeRecipient(fb), standardblockrelay.WithFallbackGasLimit(30000000),
+					standardblockrelay.WithConfigURL("https://config.example.com/vouch"), standardblockrelay.WithFallbackFeeRecipient(fb), standardblockrelay.WithFallbackGasLimit(30000000),
 					standardblockrelay.WithAccountsProvider(accts), standardblockrelay.WithValidatorsProvider(c12Validators{}), standardblockrelay.WithValidatingAccountsProvider(accts),
 					standardblockrelay.WithValidatorRegistrationSigner(e), standardblockrelay.WithReleaseVersion("test"), standardblockrelay.WithBuilderBidProvider(c12Bids{}),
 					standardblockrelay.WithBuilderConfigs(map[phase0.BLSPubKey]*blockrelay.BuilderConfig{}),
@@ -391,6 +425,26 @@ func c11Check(e *c11Env, r *mc.Result) mc.Verdict {
 		failing := e.fails[i]
 		if failing == "accounts" {
 			continue // nothing can be done in this round; what it must not do is stop the later ones
+		}
+		// the secondary beacon nodes are handed the round's registrations as well: a node that fails does not keep them
+		// from the other
+		toRelays, toNode2 := 0, 0
+		for _, addr := range []string{c11R1, c11R2} {
+			for _, g := range e.relays[addr].regs {
+				if g.round == rd {
+					toRelays++
+				}
+			}
+		}
+		for _, g := range e.nodes[1].regs {
+			if g.round == rd {
+				toNode2++
+			}
+		}
+		// (not judged when a signing request fails: the registration handed to the beacon nodes may be the very one
+		// that could not be signed)
+		if toRelays > 0 && toNode2 == 0 && failing != "signer2" && failing != "signer-high" {
+			return fail("registrations-not-handed-to-secondary-node", fmt.Sprintf("round %d: the relays received %d registrations, the second beacon node none (failing party: %q)", rd, toRelays, failing))
 		}
 		for vi := 1; vi <= 3; vi++ {
 			exp := docs[dn].exp(vi)
